@@ -296,7 +296,9 @@ def check(ctx):
                 swaps.setdefault(t, []).append(n)
     udefs = df.all_defs(um)
     for t, nodes in sorted(swaps.items()):
-        installs = [n for n in nodes if not isinstance(n.ast.value, ast.Name) or not unparse(n.ast.value).startswith("old_")]
+        # a restore writes back a local that captured the view (get_tasks()/get_jobs()) before the swap
+        saved = names_bound_to_call(um, lambda nm_: nm_ in ("get_tasks", "get_jobs"), udefs)
+        installs = [n for n in nodes if not isinstance(n.ast.value, ast.Name) or n.ast.value.id not in saved]
         restores = [n for n in nodes if n not in installs]
         for n in installs:
             okr = bool(restores)
